@@ -1,5 +1,6 @@
 use crate::cell;
 use crate::cell::Cell;
+use crate::number::Number;
 use crate::vm::continuation::Continuation;
 use crate::vm::gc;
 use crate::vm::gc::State;
@@ -14,6 +15,29 @@ use std::rc::Rc;
 
 pub type HeapRef = usize;
 
+/// The amount of memory, in units of one vcell, that the values put on the heap
+/// since the last sweep may hold outside of their vcells before a collection
+/// is due no matter how few vcells are in use.
+const PAYLOAD_BUDGET: usize = 1 << 20;
+
+/// Payload
+///
+/// The memory a value holds outside of its own vcell, in units of one vcell.
+/// A vector, string, saved stack, bytecode vector or bignum occupies a single
+/// vcell however large it is.
+fn payload(vcell: &VCell) -> usize {
+    match vcell {
+        VCell::Vector(vector) => vector.len(),
+        VCell::String(s) => s.borrow().len() / std::mem::size_of::<VCell>(),
+        VCell::Continuation(cont) => cont.stack().len(),
+        VCell::Lambda(lambda) => lambda.bc.len(),
+        VCell::Number(Number::BigInt(num)) => {
+            (num.bits() / 8).to_usize().unwrap_or(usize::MAX) / std::mem::size_of::<VCell>()
+        }
+        _ => 0,
+    }
+}
+
 #[derive(Debug)]
 pub struct Heap {
     chunk_size: usize,
@@ -21,6 +45,7 @@ pub struct Heap {
     heap: Vec<VCell>,
     heap_map: gc::Map,
     symbol_table: HashMap<String, usize>,
+    payload: usize,
 }
 
 impl Heap {
@@ -35,6 +60,7 @@ impl Heap {
             free_list: (0..chunk_size).rev().collect(),
             heap_map: gc::Map::new(chunk_size),
             symbol_table: HashMap::new(),
+            payload: 0,
         }
     }
 
@@ -102,6 +128,7 @@ impl Heap {
             },
             vcell => {
                 let ptr = self.alloc();
+                self.payload = self.payload.saturating_add(payload(vcell));
                 *self.heap.get_mut(ptr).expect("heap index is out of bounds") = vcell.clone();
                 VCell::Ptr(ptr)
             }
@@ -137,6 +164,7 @@ impl Heap {
             },
             vcell => {
                 let ptr = self.alloc();
+                self.payload = self.payload.saturating_add(payload(vcell));
                 *self.heap.get_mut(ptr).expect("heap index is out of bounds") = vcell.clone();
                 VCell::Ptr(ptr)
             }
@@ -544,7 +572,17 @@ impl Heap {
                 _ => {}
             }
         }
+        self.payload = 0;
         trace!("freed {} vcell(s)", self.free_list.len() - before);
+    }
+
+    /// Collection Due
+    ///
+    /// True if a collection is worth running: 75% of the vcells are in use, or
+    /// the values put on the heap since the last sweep hold more than
+    /// PAYLOAD_BUDGET vcells' worth of memory outside of the heap.
+    pub fn collection_due(&self) -> bool {
+        self.used_size() * 4 >= self.capacity() * 3 || self.payload > PAYLOAD_BUDGET
     }
 
     /// Size
